@@ -639,6 +639,13 @@ func (pa *provAnalysis) callProv(call *ssa.Call, result int, ctx *provCtx) provS
 		return out
 	}
 	out := provSet{}
+	// key enumeration of a map yields its keys, not its values
+	if o := calleeObj(call); o != nil && o.Name() == "Keys" && o.Pkg() != nil && strings.HasSuffix(o.Pkg().Path(), "maps") && len(cc.Args) == 1 {
+		if kp, ok := pa.mapKeysProv(cc.Args[0], ctx, 0); ok {
+			kp["call:"+calleeName(call)] = true
+			return kp
+		}
+	}
 	for _, a := range cc.Args {
 		out.add(pa.of(a, ctx))
 	}
@@ -647,4 +654,61 @@ func (pa *provAnalysis) callProv(call *ssa.Call, result int, ctx *provCtx) provS
 	}
 	out["call:"+calleeName(call)] = true
 	return out
+}
+
+// mapKeysProv: provenance of the keys of a locally built map.
+func (pa *provAnalysis) mapKeysProv(v ssa.Value, ctx *provCtx, depth int) (provSet, bool) {
+	if depth > 6 {
+		return nil, false
+	}
+	switch x := v.(type) {
+	case *ssa.MakeMap:
+		out := provSet{}
+		for _, ref := range *x.Referrers() {
+			if mu, ok := ref.(*ssa.MapUpdate); ok && mu.Map == ssa.Value(x) {
+				out.add(pa.of(mu.Key, ctx))
+			}
+		}
+		return out, true
+	case *ssa.Parameter:
+		if ctx != nil && ctx.fn == x.Parent() {
+			for i, p := range ctx.fn.Params {
+				if p == x && i < len(ctx.call.Args) {
+					return pa.mapKeysProv(ctx.call.Args[i], ctx.parent, depth+1)
+				}
+			}
+		}
+		out := provSet{}
+		found := false
+		idx := -1
+		for i, p := range x.Parent().Params {
+			if p == x {
+				idx = i
+			}
+		}
+		for _, cs := range pa.callSites(x.Parent()) {
+			if idx >= 0 && idx < len(cs.Common().Args) {
+				if kp, ok := pa.mapKeysProv(cs.Common().Args[idx], nil, depth+1); ok {
+					out.add(kp)
+					found = true
+				} else {
+					return nil, false
+				}
+			}
+		}
+		return out, found
+	case *ssa.ChangeType:
+		return pa.mapKeysProv(x.X, ctx, depth+1)
+	case *ssa.Phi:
+		out := provSet{}
+		for _, e := range x.Edges {
+			kp, ok := pa.mapKeysProv(e, ctx, depth+1)
+			if !ok {
+				return nil, false
+			}
+			out.add(kp)
+		}
+		return out, true
+	}
+	return nil, false
 }
